@@ -12,6 +12,9 @@
 
 #include <string.h>
 #include <stdlib.h>
+#include <limits.h>
+/* a visit function stops a traversal with "a non-zero value": any of them, which the traversal must hand back unchanged */
+static const int stopvals[12] = { -3, -2, -1, 11, 1, 2, 3, 256, 65536, -65536, INT_MIN, INT_MAX };
 
 enum { T_INSERT = 1, T_FIND, T_ERASE, T_FOREACH, T_CLEAR, T_SWAP, T_HEIGHT, T_HUGE };
 
@@ -603,7 +606,7 @@ static void t_exec(const plan_t *p)
             int rev = (int)(o->a[2] & 1);
             int total = 3 * m->n + 2;
             int stop_at = (int)(o->a[3] % (uint64_t)total);
-            int stop_val = (int)(o->a[4] % 7) - 3; if (stop_val == 0) stop_val = 9;
+            int stop_val = stopvals[(o->a[4] >> 8 ^ o->a[4]) % 12];
             if (o->a[5] & 1) stop_at = 0;
             check_foreach(t, rev, stop_at, stop_val);
             EVT("foreach", t, rev, nvlog);
@@ -741,7 +744,7 @@ static void t_gen(prng_t *r, int mode, plan_t *p)
         }
         o->a[2] = prng_below(r, 8);
         o->a[3] = prng_next(r) >> 8;
-        o->a[4] = prng_below(r, 7);
+        o->a[4] = prng_below(r, 12);
         o->a[5] = prng_below(r, 2);
         o->a[6] = prng_below(r, longrun ? 64 : 8);
         if (kind == T_CLEAR && prng_chance(r, 3, 4)) {
